@@ -96,6 +96,103 @@ class _Replace:
         self.ev, self.ref, self.source, self.target, self.seq = ev, ref, source, target, seq
 
 
+def _lin_ast(e: ast.expr) -> dict | None:
+    """Integer linear form of an expression over its names: {name: coef, 1: const}."""
+    if isinstance(e, ast.Constant) and type(e.value) is int:
+        return {1: e.value}
+    if isinstance(e, ast.Name):
+        return {e.id: 1}
+    if isinstance(e, ast.UnaryOp) and isinstance(e.op, ast.USub):
+        a = _lin_ast(e.operand)
+        return None if a is None else {k: -v for k, v in a.items()}
+    if isinstance(e, ast.BinOp) and isinstance(e.op, (ast.Add, ast.Sub)):
+        a, b = _lin_ast(e.left), _lin_ast(e.right)
+        if a is None or b is None:
+            return None
+        out = dict(a)
+        for k, v in b.items():
+            out[k] = out.get(k, 0) + (v if isinstance(e.op, ast.Add) else -v)
+        return {k: v for k, v in out.items() if v}
+    return None
+
+
+def decorator_transparency(prog: Program, module, dec: ast.expr) -> tuple[str, str]:
+    """Does a decorator on a function of the writing path pass every failure of the wrapped call on?  ("ok" | "violation" | "undecided", why).
+
+    Understood: a package decorator (plain, or a factory called with arguments) whose innermost wrapper calls the wrapped function; a handler
+    around that call must re-raise, unconditionally - or, inside ``for i in range(lo, hi)``, under a test ``i == E`` / ``i >= E`` with E = hi - 1
+    as integer linear forms (the last attempt), so that the wrapper cannot end normally without the call having ended normally."""
+    target = dec.func if isinstance(dec, ast.Call) else dec
+    q = prog.resolve(module, target)
+    if q in ("functools.wraps",):
+        return "ok", ""
+    ref = prog.find_func(q) if q and q.startswith("incomplete_cooperative") else None
+    if ref is None:
+        return "undecided", f"decorator {src(dec)[:50]} on a function of the writing path is not a package function: whether it passes failures on is not known"
+    # the wrapped function: a parameter of the decorator (plain) or of the inner `decorator(func)` (factory)
+    defs = [n for n in ast.walk(ref.node) if isinstance(n, ast.FunctionDef)]
+    calls = []
+    for d in defs:
+        outer_params = {a.arg for o in defs if o is not d and any(x is d for x in ast.walk(o)) for a in o.args.args + o.args.posonlyargs}
+        if d is not ref.node or True:
+            for n in ast.walk(d):
+                if isinstance(n, ast.Call) and isinstance(n.func, ast.Name) and n.func.id in outer_params and n.func.id not in {a.arg for a in d.args.args}:
+                    if not any(isinstance(x, ast.FunctionDef) and x is not d and any(y is n for y in ast.walk(x)) for x in ast.walk(d)):
+                        calls.append((d, n))
+    if not calls:
+        return "undecided", f"decorator {ref.short}: the call of the wrapped function was not found"
+    for wrapper, call in calls:
+        # chain of statements from the wrapper body down to the call
+        def chain(stmts, acc):
+            for st in stmts:
+                if any(x is call for x in ast.walk(st)):
+                    acc.append(st)
+                    for fld in ("body", "orelse", "finalbody"):
+                        sub = getattr(st, fld, None)
+                        if isinstance(sub, list) and any(any(x is call for x in ast.walk(y)) for y in sub):
+                            chain(sub, acc)
+                    return acc
+            return acc
+        path = chain(wrapper.body, [])
+        loops = [st for st in path if isinstance(st, (ast.For, ast.While))]
+        for t in [st for st in path if isinstance(st, ast.Try)]:
+            if not any(any(x is call for x in ast.walk(y)) for y in t.body):
+                continue
+            for h in t.handlers:
+                last = h.body[-1] if h.body else None
+                if isinstance(last, ast.Raise):
+                    continue                                    # passes the failure on (possibly converted)
+                cond = [st for st in h.body if isinstance(st, ast.If) and st.body and isinstance(st.body[-1], ast.Raise)]
+                loop = loops[-1] if loops else None
+                if cond and isinstance(loop, ast.For) and isinstance(loop.target, ast.Name) and isinstance(loop.iter, ast.Call) \
+                        and isinstance(loop.iter.func, ast.Name) and loop.iter.func.id == "range" and 1 <= len(loop.iter.args) <= 2 and not loop.orelse:
+                    hi = loop.iter.args[-1]
+                    test = cond[0].test
+                    if isinstance(test, ast.Compare) and len(test.ops) == 1 and isinstance(test.ops[0], (ast.Eq, ast.GtE)) \
+                            and isinstance(test.left, ast.Name) and test.left.id == loop.target.id:
+                        want = _lin_ast(ast.BinOp(left=hi, op=ast.Sub(), right=ast.Constant(value=1)))
+                        have = _lin_ast(test.comparators[0])
+                        if want is not None and have is not None:
+                            if have == want:
+                                continue
+                            return "violation", (f"decorator {ref.short}: the handler re-raises only when {src(test)}, but the last iteration of "
+                                                 f"`for {loop.target.id} in {src(loop.iter)}` is {loop.target.id} = {src(hi)} - 1: after the last failed attempt the wrapper returns normally")
+                    return "undecided", f"decorator {ref.short}: conditional re-raise `{src(test)[:40]}` not understood"
+                if not any(isinstance(n, ast.Raise) for st in h.body for n in ast.walk(st)):
+                    if loops:
+                        # swallowed inside a retry loop: fine only if the wrapper cannot leave the loop normally
+                        after = wrapper.body[wrapper.body.index(path[0]) + 1:] if path and path[0] in wrapper.body else []
+                        if (loop_else_raises(loops[-1]) or (after and isinstance(after[-1], ast.Raise))):
+                            continue
+                    return "violation", f"decorator {ref.short}: a failure of the wrapped call ({src(h.type) if h.type is not None else 'any exception'}) is swallowed and the wrapper returns normally"
+                return "undecided", f"decorator {ref.short}: handler around the wrapped call not understood"
+    return "ok", ""
+
+
+def loop_else_raises(loop) -> bool:
+    return bool(loop.orelse) and isinstance(loop.orelse[-1], ast.Raise)
+
+
 class SaverModel:
     """Writes, replaces, removals and serialised objects reachable from the saver (helpers inlined)."""
 
@@ -112,11 +209,26 @@ class SaverModel:
         if not params:
             raise AnalysisError(f"{saver.short} has no positional parameter for the destination path")
         self.dest_param = params[0]
+        self.wrapper_issues: list[tuple] = []      # (ref, node, "violation" | "undecided", message)
         self._collect(saver, {("param", params[0])}, (), 0)
 
-    def _collect(self, ref: FuncRef, dests: set[Term], prefix: tuple, depth: int) -> None:
+    def _collect(self, ref: FuncRef, dests: set[Term], prefix: tuple, depth: int, siblings: dict | None = None) -> None:
+        siblings = siblings or {}       # parameter of this helper -> the caller's term for the temporary sibling it was given
+        try:
+            n0 = len(self.writes)
+            self._collect_(ref, dests, prefix, depth, siblings)
+        finally:
+            for w in self.writes[n0:]:
+                if w.path in siblings:
+                    w.path = siblings[w.path]
+
+    def _collect_(self, ref: FuncRef, dests: set[Term], prefix: tuple, depth: int, siblings: dict) -> None:
         ft = fterms(self.prog, ref)
         self.functions.append(ref.short)
+        _pk = globals()["path_kind"]
+
+        def path_kind(path, dests_):        # a parameter that the caller bound to a temporary sibling of the destination is one here too
+            return "sibling" if path in siblings else _pk(path, dests_)
         with_exit = {e.uid: e.seq for e in ft.of_kind("with_exit")}
         with_enter = [e for e in ft.of_kind("with_enter")]
 
@@ -233,14 +345,23 @@ class SaverModel:
                 if callee.cls is not None and cparams and cparams[0] == "self":
                     cparams = cparams[1:]
                 mapped: set[Term] = set()
+                sib: dict = {}
                 for i, a in enumerate(ev.args):
                     if i < len(cparams) and a in dests:
                         mapped.add(("param", cparams[i]))
+                    elif i < len(cparams) and path_kind(a, dests) == "sibling":
+                        sib[("param", cparams[i])] = a
                 for k, a in ev.kwargs.items():
                     if k is not None and a in dests:
                         mapped.add(("param", k))
-                if mapped:
-                    self._collect(callee, mapped, seq, depth + 1)
+                    elif k is not None and path_kind(a, dests) == "sibling":
+                        sib[("param", k)] = a
+                if mapped or sib:
+                    for dec in callee.node.decorator_list:
+                        verdict, msg = decorator_transparency(self.prog, callee.module, dec)
+                        if verdict != "ok":
+                            self.wrapper_issues.append((callee, dec, verdict, msg))
+                    self._collect(callee, mapped, seq, depth + 1, sib)
 
 
 def _model(prog: Program) -> SaverModel:
@@ -250,6 +371,53 @@ def _model(prog: Program) -> SaverModel:
 # --------------------------------------------------------------------------------------
 # C20
 # --------------------------------------------------------------------------------------
+
+_READ_CALLS = {"load", "loads", "read_text", "read_bytes", "read", "open"}
+_ABSENT_ONLY = {"FileNotFoundError"}
+
+
+def _check_read_errors(prog: Program, col: Collector, m) -> None:
+    """A6: a failure while READING the existing results is not "no results yet".  In every function in or below the saver (and in the
+    dispatcher), a handler around a read of a file that swallows the error may catch FileNotFoundError only."""
+    col.rule("A6", "an error while reading the stored results is never swallowed as `no results yet` (only FileNotFoundError may be handled)", 0)
+    quals = list(m.functions)
+    disp = prog.find_func("run.save.save")
+    if disp is not None and disp.qual not in quals:
+        quals.append(disp.qual)
+    refs = [r for r in (prog.find_func(q) for q in quals) if r is not None]
+    # helpers of the same module that the saver or the dispatcher calls (read through by the term layer, so not listed as functions of their own)
+    seen = {r.qual for r in refs}
+    for r in list(refs):
+        for n in ast.walk(r.node):
+            if isinstance(n, ast.Call) and isinstance(n.func, ast.Name):
+                h = prog.find_func(f"{r.module.name}.{n.func.id}")
+                if h is not None and h.qual not in seen:
+                    seen.add(h.qual)
+                    refs.append(h)
+    for ref in refs:
+        for t in ast.walk(ref.node):
+            if not isinstance(t, ast.Try):
+                continue
+            reads = [n for st in t.body for n in ast.walk(st) if isinstance(n, ast.Call)
+                     and ((isinstance(n.func, ast.Attribute) and n.func.attr in _READ_CALLS) or (isinstance(n.func, ast.Name) and n.func.id == "open"))]
+            writes = [n for st in t.body for n in ast.walk(st) if isinstance(n, ast.Call) and isinstance(n.func, ast.Attribute) and n.func.attr in ("dump", "write", "write_text", "replace", "rename")]
+            if not reads or writes:
+                continue
+            for h in t.handlers:
+                swallowed = not any(isinstance(n, ast.Raise) for st in h.body for n in ast.walk(st))
+                if not swallowed:
+                    continue
+                types = [h.type] if h.type is not None and not isinstance(h.type, ast.Tuple) else list(h.type.elts) if h.type is not None else []
+                names = {(x.attr if isinstance(x, ast.Attribute) else getattr(x, "id", "?")) for x in types} or {"<bare except>"}
+                decode_only = names <= {"JSONDecodeError", "ValueError"}
+                if decode_only:
+                    continue        # a file that does not parse holds no recoverable runs: outside this clause
+                col.check(names <= _ABSENT_ONLY, ref.where(h), ref.short,
+                          f"the handler around the read of the stored results catches {sorted(names)}: only a missing file means `no results yet`",
+                          construct="read-error-as-empty",
+                          necessity="EMFILE, EACCES or EIO while opening or reading an existing data.json are OSErrors too: treated as `file absent`, the save goes on with an "
+                                    "empty mapping and atomically installs a file that holds only the new run - every earlier run is lost", rule="A6")
+
 
 def rule_c20_atomic(prog: Program, col: Collector) -> None:
     m = _model(prog)
@@ -294,6 +462,15 @@ def rule_c20_atomic(prog: Program, col: Collector) -> None:
     for e in raw_writes:
         col.check(False, saver.where(e.node), saver.short, "content is written through a file object, not os.write (whose short counts must be looped over)",
                   construct="temp-os-write", necessity="os.write may write fewer bytes than given", rule="A2")
+    _check_read_errors(prog, col, m)
+    col.rule("A7", "a wrapper (decorator) around a function of the writing path passes every failure of the wrapped call on", 0)
+    for ref, node, verdict, msg in m.wrapper_issues:
+        if verdict == "undecided":
+            col.undecidable(ref.where(node), ref.short, msg, rule="A7")
+        else:
+            col.violation(ref.where(node), ref.short, "wrapper-swallows-failure", msg,
+                          "a write that failed (disk full, quota, EIO) and is reported as done is followed by the replace: the half-written temporary file is installed "
+                          "over the results file, which no longer parses - every stored run is lost", rule="A7")
     col.rule("A3", "the atomic replace(tmp, dest) comes after the temporary file is closed, on every path that wrote it", 0)
     dests = {("param", m.dest_param)}
     for w in m.writes:
